@@ -227,24 +227,16 @@ func getCurrStep(startSample, endSample, step, t int64) int64 {
 
 func IsSameStep(startSample, endSample, step, duration, currT, nextT int64) bool {
 	// constraint: nextT > currT
-	if currT < startSample && nextT > startSample {
+	// the window of a step is closed on both sides, [step-duration, step]: a sample whose time is a step
+	// belongs to the window of that step, not to the one of the following step.
+	currStep := getCurrStep(startSample, endSample, step, currT)
+	nextStep := getCurrStep(startSample, endSample, step, nextT)
+	if currStep != nextStep {
 		return false
 	}
-	n1 := (currT - startSample) / step
-	n2 := (nextT - startSample) / step
-	if n1 != n2 {
-		return false
-	}
-	delta := step - duration
-	var r1, r2 int64
-	if (currT-startSample) <= 0 && (nextT-startSample) <= 0 {
-		r1, r2 = (startSample-currT)%step, (startSample-nextT)%step
-		return r1 <= duration && r2 <= duration
-	} else {
-		r1, r2 = (currT-startSample)%step, (nextT-startSample)%step
-		return r1 >= delta && r2 >= delta
-	}
-
+	// a sample after the last step is in no window.
+	rangeStart := currStep - duration
+	return rangeStart <= currT && currT <= currStep && rangeStart <= nextT && nextT <= currStep
 }
 
 func newPromSampleProcessor(inSchema, outSchema record.Schemas, exprOpt []hybridqp.ExprOptions) (CoProcessor, error) {
